@@ -1,4 +1,44 @@
-(* C02 correspondence: man-in-the-middle scripts on a live pair, replayed on the symbolic pair
-   model (same case format as C11: Model/DtlsSym.v). *)
+(* C02 correspondence.  Three kinds of cases:
+   KPair  a man-in-the-middle script on a live DTLS pair, in the vocabulary of Model/DtlsSym.v: what
+          the proxy delivered to each real endpoint (references to records the model's own endpoints
+          emitted + symbolic tamper operations, forged records), and what the implementation showed;
+   KFp    SdpFingerprint::parse on one attribute value (tokens) and its result;
+   KFps   SessionDescription::dtls_fingerprint() over several a=fingerprint attributes. *)
 From Coq Require Import ZArith List Bool.
-From RV Require Export Model.DtlsHs Model.DtlsSym.
+From RV Require Import Model.DtlsHs Model.DtlsSym Model.Fingerprint.
+Import ListNotations.
+Open Scope Z_scope.
+
+Inductive case : Type :=
+| KPair (c : DtlsSym.case)
+| KFp (tokens : list (list Z)) (res : option (list Z * list Z))
+| KFps (attrs : list (list (list Z))) (res : option (option (list Z * list Z))).
+
+Definition ofp_eqb (a b : option fp) : bool :=
+  match a, b with Some x, Some y => fp_eqb x y | None, None => true | _, _ => false end.
+Definition oofp_eqb (a b : option (option fp)) : bool :=
+  match a, b with Some x, Some y => ofp_eqb x y | None, None => true | _, _ => false end.
+
+Inductive mout : Type :=
+| MPair (o : obs * Z * (Z * Z)) | MFp (r : option fp) | MFps (r : option (option fp)).
+
+Definition model_out (c : case) : mout :=
+  match c with
+  | KPair p => MPair (DtlsSym.model_out p)
+  | KFp t _ => MFp (parse_fp t)
+  | KFps a _ => MFps (collect a)
+  end.
+
+Definition check_case (c : case) : bool :=
+  match c with
+  | KPair p => DtlsSym.check_case p
+  | KFp t r => ofp_eqb (parse_fp t) r
+  | KFps a r => oofp_eqb (collect a) r
+  end.
+
+Fixpoint bad_from (i : Z) (cs : list case) : list Z :=
+  match cs with
+  | [] => []
+  | c :: rest => if check_case c then bad_from (i + 1) rest else i :: bad_from (i + 1) rest
+  end.
+Definition bad_indices (cs : list case) : list Z := bad_from 0 cs.
